@@ -1,7 +1,128 @@
 //! Generator families for text output and serde (C20).
-use crate::mach::M;
-use crate::rng::Rng;
+use crate::gen::load_valid;
+use crate::mach::{A, M};
+use crate::rng::*;
 
-pub fn run(_m: &mut M, _r: &mut Rng, _family: &str, _n: u64) -> bool {
-    false
+fn sgn(r: &mut Rng) -> f64 {
+    if r.coin() {
+        1.0
+    } else {
+        -1.0
+    }
+}
+
+fn load_text_case(m: &mut M, r: &mut Rng, d: usize) {
+    loop {
+        let (hi, lo) = match r.below(10) {
+            0 => (sgn(r) * r.f64_in(-5, 5).abs(), if r.coin() { 0.0 } else { -0.0 }), // negative-zero low word
+            1 => {
+                let h = r.f64_in(-1020, -990);
+                (h, sgn(r) * f64::from_bits(r.next() & ((1u64 << 30) - 1))) // subnormal low word
+            }
+            2 => {
+                let h = r.f64_in(300, 1000); // needs many digits / scientific notation
+                (h, lo_candidate(r, h))
+            }
+            3 => {
+                let h = r.f64_in(-1000, -300);
+                (h, lo_candidate(r, h))
+            }
+            4 => (if r.coin() { 0.0 } else { -0.0 }, if r.coin() { 0.0 } else { -0.0 }),
+            5 => {
+                let h = sgn(r) * (r.below(100000) as f64) / 8.0;
+                (h, lo_candidate(r, h))
+            }
+            _ => {
+                let h = r.f64_in(-60, 60);
+                (h, lo_candidate(r, h))
+            }
+        };
+        if m.load(d, hi, lo) {
+            return;
+        }
+    }
+}
+
+pub fn fmt(m: &mut M, r: &mut Rng, n: u64) {
+    for _ in 0..n {
+        m.group("fmt");
+        load_text_case(m, r, 0);
+        for tr in ["display", "lower", "upper"] {
+            for plus in ["", "+"] {
+                let prec: i64 = *r.pick(&[-1, -1, 0, 1, 17, 40, 5]);
+                for p in [-1i64, prec] {
+                    if p == -1 && prec == -1 && plus == "+" && r.coin() {
+                        continue;
+                    }
+                    m.call("text", "fmt", "fmt", None, &[A::R(0), A::S(tr.into()), A::S(plus.into()), A::I(p < 0, p.unsigned_abs() as u128, "i32")]);
+                }
+            }
+        }
+    }
+    m.group("misc_text");
+    m.call("text", "err_display", "fmt", None, &[A::S("conversion".into())]);
+    m.call("text", "err_display", "fmt", None, &[A::S("parse".into())]);
+    m.call("text", "from_str_radix", "Num", None, &[A::S("1.5".into())]);
+}
+
+#[cfg(feature = "serde")]
+pub fn serde_family(m: &mut M, r: &mut Rng, n: u64) {
+    let sl = |v: &[&str]| A::SL(v.iter().map(|s| s.to_string()).collect());
+    for i in 0..n {
+        m.group("serde");
+        // --- valid values: serialize, round trip, deserialize in every well-formed shape
+        if r.coin() {
+            load_text_case(m, r, 0);
+        } else {
+            load_valid(m, r, 0, -300, 300);
+        }
+        let x = m.tf(0);
+        m.call("serde", "ser_json", "json", None, &[A::R(0)]);
+        m.call("serde", "ser_tokens", "serde_test", None, &[A::R(0)]);
+        m.call("serde", "rt_json", "json", Some(1), &[A::R(0)]);
+        m.call("serde", "de_seq", "value", Some(1), &[A::FL(vec![x.hi(), x.lo()])]);
+        m.call("serde", "de_map", "value", Some(1), &[sl(&["hi", "lo"]), A::FL(vec![x.hi(), x.lo()])]);
+        m.call("serde", "de_map", "value", Some(1), &[sl(&["lo", "hi"]), A::FL(vec![x.lo(), x.hi()])]);
+        m.call("serde", "de_json", "json", Some(1), &[A::S("seq".into()), sl(&[]), A::FL(vec![x.hi(), x.lo()])]);
+        m.call("serde", "de_json", "json", Some(1), &[A::S("map".into()), sl(&["lo", "hi"]), A::FL(vec![x.lo(), x.hi()])]);
+        // --- arbitrary (hi, lo) pairs, overlapping or not, non-finite
+        let a = match r.below(6) {
+            0 => *r.pick(&[f64::INFINITY, f64::NEG_INFINITY, f64::NAN, 0.0, -0.0]),
+            _ => r.f64_in(-300, 300),
+        };
+        let b = match r.below(8) {
+            0 => *r.pick(&[f64::INFINITY, f64::NAN, f64::NEG_INFINITY]),
+            1 => r.f64_in(-300, 300),
+            2 => a,
+            _ => lo_candidate(r, a),
+        };
+        m.call("serde", "de_seq", "value", Some(2), &[A::FL(vec![a, b])]);
+        m.call("serde", "de_map", "value", Some(2), &[sl(&["hi", "lo"]), A::FL(vec![a, b])]);
+        m.call("serde", "de_map", "value", Some(2), &[sl(&["lo", "hi"]), A::FL(vec![b, a])]);
+        if a.is_finite() && b.is_finite() {
+            m.call("serde", "de_json", "json", Some(2), &[A::S("map".into()), sl(&["hi", "lo"]), A::FL(vec![a, b])]);
+            m.call("serde", "de_json", "json", Some(2), &[A::S("seq".into()), sl(&[]), A::FL(vec![a, b])]);
+        }
+        // --- malformed shapes: missing, duplicate, unknown field; short sequences
+        if i % 2 == 0 {
+            let shapes: [&[&str]; 9] = [&["hi"], &["lo"], &[], &["hi", "hi", "lo"], &["hi", "lo", "lo"], &["hi", "lo", "zz"], &["zz", "hi", "lo"], &["hi", "hi"], &["secs", "nanos"]];
+            let sh = *r.pick(&shapes);
+            let vals: Vec<f64> = sh.iter().map(|k| if *k == "lo" { x.lo() } else { x.hi() }).collect();
+            m.call("serde", "de_map", "value", Some(3), &[sl(sh), A::FL(vals.clone())]);
+            m.call("serde", "de_json", "json", Some(3), &[A::S("map".into()), sl(sh), A::FL(vals)]);
+            let short: Vec<f64> = if r.coin() { vec![x.hi()] } else { vec![] };
+            m.call("serde", "de_seq", "value", Some(3), &[A::FL(short.clone())]);
+            m.call("serde", "de_json", "json", Some(3), &[A::S("seq".into()), sl(&[]), A::FL(short)]);
+        }
+    }
+}
+
+pub fn run(m: &mut M, r: &mut Rng, family: &str, n: u64) -> bool {
+    match family {
+        "fmt" => fmt(m, r, n),
+        #[cfg(feature = "serde")]
+        "serde" => serde_family(m, r, n),
+        _ => return false,
+    }
+    true
 }
